@@ -394,6 +394,30 @@ package meta
 //@   property C06
 //@   ensures [stops_only_at_the_limit] !result ==> deref(count) >= limit
 //@   ensures [visited_id_becomes_the_cursor_position] result ==> cursor.lastObjectID == p0
+// "Listing omits exactly the objects marked for removal" (C01), and evacuation moves what the
+// listing shows (C19): a candidate is passed over only when the removal status of the object -
+// tombstone or plain garbage mark; a redundant-copy mark leaves it available - says so, or its
+// type cannot be read.
+//@ ghost pred candidateRemovalStatus() uint8
+//@ ghost pred candidateTypeRead() bool
+//@ callrule c06_candidate_removal_status in selectNFromBucket$1
+//@   property C06 C01 C19
+//@   callee metabase.inGarbage
+//@   pureeffect
+//@   requires [status_of_the_candidate] a1 == p0
+//@   defines result == candidateRemovalStatus()
+//@ callrule c06_candidate_type in selectNFromBucket$1
+//@   property C06 C01 C19
+//@   callee metabase.fetchTypeForIDWBuf
+//@   pureeffect
+//@   defines (err == nil) == candidateTypeRead()
+//@ callrule c06_listing_collaborators in selectNFromBucket$1
+//@   property C06 C01 C19
+//@   callee (*bbolt.Bucket).Cursor, (*bbolt.Cursor).*, metabase.fillIDAttributePrefix, slices.MaxLen, bytes.HasPrefix, (*id.Address).*, (*oid.Address).*
+//@   pureeffect
+//@ func selectNFromBucket$1
+//@   property C06 C01 C19
+//@   ensures [candidate_passed_over_only_when_marked_for_removal_or_untyped] result && deref(count) == old(deref(count)) ==> candidateRemovalStatus() != statusAvailable || !candidateTypeRead()
 
 // ---- C03: what is indexed as an integer. Storing and removing an object classify an attribute
 // value as an integer by the very same test - parseInt answers true exactly when
